@@ -331,7 +331,7 @@ impl CounterProbe {
         self.0.dec()
     }
     pub fn total(&self) -> usize {
-        self.0.total()
+        self.0.verif_total()
     }
 }
 
@@ -367,7 +367,7 @@ impl WorkerCounterProbe {
         GuardProbe(self.worker.guard())
     }
     pub fn total(&self) -> usize {
-        self.counter.total()
+        self.counter.verif_total()
     }
     /// `WorkerAvailable(idx)` notifications pushed since the last call
     pub fn drain_notifications(&self) -> Vec<usize> {
